@@ -74,7 +74,7 @@ def bern(p):
 GRID = {
  "Normal": (normal, [[0, 4], [40, 80], [-4000, 1], [12, 2]]),
  "Gamma": (gamma_, [[1, 4], [2, 4], [3, 4], [4, 4], [8, 2], [18, 16], [400, 4], [1, 2], [4, 4096], [10, 1]]),     # shape 1/4..100, rates 1/4..1024
- "Beta": (beta_, [[2, 2], [4, 4], [8, 16], [1, 12], [20, 2], [120, 120], [6, 3]]),
+ "Beta": (beta_, [[2, 2], [4, 4], [8, 16], [1, 12], [20, 2], [120, 120], [6, 3], [4, 12], [12, 4], [4, 2]]),      # incl. unit shapes (1, 3), (3, 1), (1, 1/2)
  "ChiSquared": (chi2, [[1], [2], [3], [5], [50], [200]]),
  "T": (t_, [[2], [4], [8], [12], [40], [800], [10]]),
  "Pareto": (pareto, [[2, 4], [4, 4], [16, 16], [12, 1], [10, 8]]),
